@@ -128,6 +128,25 @@ def modules():
     n = f.add_op(Not, cfg.parent_node[0], metadata={"nan": math.nan, "ninf": -math.inf, "ok": 1.5})
     f.set_outputs(tl.parent_node[0], tl.parent_node[1], n, inf)
     out.append(("tailloop-rows-block-delta-nonfinite-floats", m.hugr))
+
+    # several different extension operations held as generic ExtOp objects (one Python class), a function-typed wire, a one-block loop
+    from hugr.std.logic import EXTENSION as LOGIC_EXT
+    m = Module()
+    f = m.define_function("generic_ext_ops", [tys.Bool, tys.Bool])
+    x, y = f.inputs()
+    names = [n for n in ("And", "Or", "Xor", "Eq") if n in LOGIC_EXT.operations][:3]
+    outs = []
+    for nm in names:
+        od = LOGIC_EXT.operations[nm]
+        outs.append(f.add_op(od.instantiate([tys.BoundedNatArg(2)], tys.FunctionType([tys.Bool, tys.Bool], [tys.Bool])), x, y))
+    fv = f.load_function(f.parent_node) if False else None
+    cfg = f.add_cfg(x)
+    e = cfg.add_entry()
+    e.set_outputs(e.inputs()[0])
+    cfg.branch(e[0], e)                      # a block that is its own successor
+    cfg.branch_exit(e[1])
+    f.set_outputs(*outs)
+    out.append(("generic-ext-ops-and-one-block-loop", m.hugr))
     return out
 
 
